@@ -16,25 +16,56 @@ Proof. unfold tsigs. cbn. apply app_nil_r. Qed.
 Lemma tsigs_nil : tsigs [] = [].
 Proof. reflexivity. Qed.
 
-Lemma sig_into_text t : sig (into_text t) = tsig t.
+Lemma sig_into_text t : ascii_blanks t = true -> sig (into_text t) = tsig t.
 Proof.
-  induction t as [k s a|k cs a IH] using tree_ind'; [reflexivity|]. cbn [into_text tsig].
-  induction IH as [|c cs Hc Hcs IHcs]; cbn [map concat]; [reflexivity|]. rewrite sig_app, Hc, IHcs. reflexivity.
+  induction t as [k s a|k cs a IH] using tree_ind'; cbn [into_text tsig ascii_blanks].
+  - destruct (blank_kind k); [|reflexivity]. intros H. destruct (sig s); [reflexivity|discriminate].
+  - intros H. pose proof (proj1 (forallb_forall _ _) H) as Hall. clear H.
+    induction IH as [|c cs Hc Hcs IHcs]; cbn [map concat]; [reflexivity|].
+    rewrite sig_app, Hc, IHcs; [reflexivity| |]; intros; apply Hall; [right; assumption|left; reflexivity].
 Qed.
 
 (* ---------- facts that the scope gives about a node ---------- *)
-Lemma sc_token t : sc t = true -> inner_kind (kind_of t) = false -> tsig t = sig (text_of t).
+Lemma sc_token t : sc t = true -> inner_kind (kind_of t) || blank_kind (kind_of t) = false -> tsig t = sig (text_of t).
 Proof.
-  destruct t as [k s a|k cs a]; cbn [sc kind_of tsig text_of]; [reflexivity|].
-  intros H E. rewrite E in H. discriminate.
+  destruct t as [k s a|k cs a]; cbn [sc kind_of tsig text_of].
+  - intros _ E. apply Bool.orb_false_elim in E. rewrite (proj2 E). reflexivity.
+  - intros H E. apply Bool.orb_false_elim in E. rewrite (proj1 E) in H. discriminate.
+Qed.
+Lemma sc_tok_ascii t : sc t = true -> inner_kind (kind_of t) || blank_kind (kind_of t) = false -> ascii_blanks t = true.
+Proof.
+  destruct t as [k s a|k cs a]; cbn [sc kind_of ascii_blanks].
+  - intros _ E. apply Bool.orb_false_elim in E. rewrite (proj2 E). reflexivity.
+  - intros H E. apply Bool.orb_false_elim in E. rewrite (proj1 E) in H. discriminate.
+Qed.
+Lemma nb_by_expr k : kind_eqb k KSpace = false -> is_expr_kind k = false -> blank_kind k = false.
+Proof. destruct k; cbn; intros; try reflexivity; discriminate. Qed.
+Lemma sc_verbatim t : sc t = true -> verbatim_risk t = true -> ascii_blanks t = true.
+Proof.
+  intros H R. assert (V : verbatim_ok t = true).
+  { destruct t; cbn [sc] in H; apply andb_prop in H; exact (proj2 H). }
+  unfold verbatim_ok in V. rewrite R in V. exact V.
+Qed.
+Lemma disabled_ascii t : sc t = true -> a_disabled (attrs_of t) = true -> ascii_blanks t = true.
+Proof. intros H D. apply (sc_verbatim _ H). unfold verbatim_risk. rewrite D. reflexivity. Qed.
+Lemma raw_ascii t : sc t = true -> kind_of t = KRaw -> ascii_blanks t = true.
+Proof.
+  intros H E. destruct t as [k s a|k cs a]; cbn [kind_of] in E; subst; [reflexivity|].
+  apply (sc_verbatim _ H). unfold verbatim_risk. cbn [kind_eqb]. rewrite kind_eqb_refl. apply Bool.orb_true_r.
+Qed.
+Lemma child_disabled_ascii t : sc t = true -> existsb (fun c => a_disabled (attrs_of c)) (children t) = true -> ascii_blanks t = true.
+Proof.
+  intros H E. destruct t as [k s a|k cs a]; cbn [children] in E; [discriminate E|].
+  apply (sc_verbatim _ H). unfold verbatim_risk. rewrite E. rewrite !Bool.orb_true_r. reflexivity.
 Qed.
 Lemma sc_leaf_tok k s a : sc (Leaf k s a) = true -> inner_kind k = false -> leaf_ok k s (Leaf k s a) = true.
-Proof. cbn [sc]. intros H E. rewrite E in H. exact H. Qed.
+Proof. cbn [sc]. intros H E. rewrite E in H. apply andb_prop in H. exact (proj1 H). Qed.
 Lemma sc_quiet t : sc t = true -> quiet_leaf (kind_of t) = true -> tsig t = [].
 Proof.
   destruct t as [k s a|k cs a]; cbn [kind_of tsig].
   - intros H E. assert (Hi : inner_kind k = false) by (destruct k; try reflexivity; discriminate E).
     pose proof (sc_leaf_tok _ _ _ H Hi) as H1. unfold leaf_ok in H1. rewrite E in H1.
+    destruct (blank_kind k); [reflexivity|]. cbn [negb andb] in H1.
     destruct (sig s); [reflexivity|discriminate].
   - cbn [sc]. intros H E. destruct k; discriminate.
 Qed.
@@ -42,10 +73,12 @@ Lemma sc_fixed t lit : sc t = true -> fixed_leaf (kind_of t) = Some lit -> tsig 
 Proof.
   destruct t as [k s a|k cs a]; cbn [kind_of tsig].
   - intros H E. assert (Hi : inner_kind k = false) by (destruct k; try reflexivity; discriminate E).
+    assert (Hb : blank_kind k = false) by (destruct k; try reflexivity; discriminate E). rewrite Hb.
     pose proof (sc_leaf_tok _ _ _ H Hi) as H1. unfold leaf_ok in H1. rewrite E in H1.
     apply andb_prop in H1. destruct H1 as [H1 _]. apply andb_prop in H1. destruct H1 as [_ H1].
     apply (proj1 (str_eqb_eq _ _)) in H1. subst. reflexivity.
   - cbn [sc]. intros H E. apply andb_prop in H. destruct H as [H _]. apply andb_prop in H. destruct H as [H _].
+    apply andb_prop in H. destruct H as [H _].
     destruct k; try discriminate H; discriminate E.
 Qed.
 Lemma sc_comment t : sc t = true -> is_comment_node t = true -> comment_sig_ok t = true.
@@ -55,11 +88,13 @@ Proof.
     pose proof (sc_leaf_tok _ _ _ H Hi) as H1. unfold leaf_ok in H1. apply andb_prop in H1. destruct H1 as [_ H1].
     destruct k; try discriminate E; exact H1.
   - cbn [sc]. intros H E. apply andb_prop in H. destruct H as [H _]. apply andb_prop in H. destruct H as [H _].
+    apply andb_prop in H. destruct H as [H _].
     destruct k; try discriminate E; discriminate H.
 Qed.
 Lemma sc_kids k cs a : sc (Inner k cs a) = true -> knode_ok k cs = true /\ Forall (fun c => sc c = true) cs.
 Proof.
-  cbn [sc]. intros H. apply andb_prop in H. destruct H as [H Hk]. apply andb_prop in H. destruct H as [_ Hn].
+  cbn [sc]. intros H. apply andb_prop in H. destruct H as [H _]. apply andb_prop in H. destruct H as [H Hk].
+  apply andb_prop in H. destruct H as [_ Hn].
   split; [exact Hn|]. apply Forall_forall. apply (proj1 (forallb_forall _ _) Hk).
 Qed.
 
@@ -108,8 +143,8 @@ Section SigConv.
 
   Lemma good_text s : good_doc (sig s) (text s).
   Proof. split; [apply dsig_text|apply wsig_text]. Qed.
-  Lemma good_verbatim t : good_doc (tsig t) (convert_verbatim swidth t).
-  Proof. unfold convert_verbatim. rewrite <- sig_into_text. apply good_text. Qed.
+  Lemma good_verbatim t : ascii_blanks t = true -> good_doc (tsig t) (convert_verbatim swidth t).
+  Proof. intros H. unfold convert_verbatim. rewrite <- (sig_into_text _ H). apply good_text. Qed.
   Lemma good_nil : good_doc [] DNil.  Proof. split; reflexivity. Qed.
   Lemma good_append a b x y : good_doc x a -> good_doc y b -> good_doc (x ++ y) (append a b).
   Proof. intros [Ha Wa] [Hb Wb]. split; [rewrite dsig_append, Ha, Hb; reflexivity|apply wsig_append; assumption]. Qed.
@@ -120,8 +155,8 @@ Section SigConv.
     inversion E; subst. pose proof (sc_comment _ Hs Hc) as Hok. unfold comment_sig_ok in Hok.
     rewrite (comment_erase _ _ _ Ec) in Hok. apply andb_prop in Hok. destruct Hok as [Hw He].
     apply (proj1 (str_eqb_eq _ _)) in He. rewrite erase_dsig in He. rewrite erase_wsig in Hw.
-    split; [|exact Hw]. rewrite He. symmetry. apply sc_token; [exact Hs|].
-    unfold is_comment_b, is_comment_node in Hc. destruct (kind_of (bt b)); try discriminate; reflexivity.
+    split; [|exact Hw]. rewrite He. symmetry.
+    apply sc_token; [exact Hs|]. unfold is_comment_b, is_comment_node in Hc. destruct (kind_of (bt b)); try discriminate; reflexivity.
   Qed.
 
   (* fold with an accumulating signature *)
@@ -421,10 +456,10 @@ Section SigConv.
     sc (bt child) = true -> fixed_leaf (bk child) = Some lit -> good_doc (tsig (bt child)) (text lit).
   Proof. intros Hs Hq. rewrite (sc_fixed _ lit Hs Hq). apply good_text. Qed.
   Lemma good_tx child :
-    sc (bt child) = true -> inner_kind (bk child) = false -> good_doc (tsig (bt child)) (text (tx child)).
+    sc (bt child) = true -> inner_kind (bk child) || blank_kind (bk child) = false -> good_doc (tsig (bt child)) (text (tx child)).
   Proof. intros Hs Hq. rewrite (sc_token _ Hs Hq). apply good_text. Qed.
   Lemma good_trivia child :
-    sc (bt child) = true -> inner_kind (bk child) = false -> good_doc (tsig (bt child)) (convert_trivia swidth (bt child)).
+    sc (bt child) = true -> inner_kind (bk child) || blank_kind (bk child) = false -> good_doc (tsig (bt child)) (convert_trivia swidth (bt child)).
   Proof. apply good_tx. Qed.
 
   (* the environment of a producer obligation: child, its sgood, its scope, the parent's keep clause *)
@@ -833,11 +868,12 @@ Section SigConv.
              apply (post_bind _ _ (good_doc (tsig (bt node)))).
              ++ destruct (kind_eqb (bk node) KSpace) eqn:E1.
                 { apply post_ret. rewrite (sc_quiet _ Hsc) by (unfold bk in E1; apply keq in E1; rewrite E1; reflexivity). split; reflexivity. }
-                destruct (kind_eqb (bk node) KText) eqn:E2; [apply post_ret; apply good_verbatim|].
+                destruct (kind_eqb (bk node) KText) eqn:E2.
+                { apply post_ret. apply good_verbatim. apply (sc_tok_ascii _ Hsc). unfold bk in E2. apply keq in E2. rewrite E2. reflexivity. }
                 destruct (is_expr (bt node)) eqn:E3; [apply sgood_call; [exact Hsg|exact Hsc|reflexivity]|].
                 destruct (is_comment_b node) eqn:E4; [apply post_comment; assumption|].
                 apply post_ret. apply good_trivia; [exact Hsc|]. unfold is_comment_b in E4. rewrite ?E3, ?E4 in Hk. cbn in Hk.
-                destruct (inner_kind (bk node)); [discriminate|reflexivity].
+                rewrite (nb_by_expr _ E1 E3). destruct (inner_kind (bk node)); [discriminate|reflexivity].
              ++ intros x [Hx Wx]. apply post_ret. rewrite dsig_append, Hx. split; [reflexivity|apply wsig_append; assumption].
           -- intros d1 [E1 W1]. unfold tsigs. auto.
         * intros d1 [E1 W1]. apply post_ret. destruct (0 <? ml_breaks ln).
@@ -856,7 +892,7 @@ Section SigConv.
   Lemma tsig_kids' t kids : map bt kids = children t -> inner_kind (kind_of t) = true -> sc t = true -> tsig t = tsigs kids.
   Proof.
     intros Hm Hk Hs. destruct t as [k s a|k cs a]; cbn [children kind_of tsig sc] in *.
-    - rewrite Hk in Hs. destruct s; [|discriminate]. destruct kids; [reflexivity|discriminate].
+    - rewrite Hk in Hs. destruct s; [|discriminate]. destruct kids; [destruct (blank_kind k); reflexivity|discriminate].
     - unfold tsigs. rewrite <- Hm, map_map. reflexivity.
   Qed.
   (* ---------- content blocks, strong, emph, raw, ref ---------- *)
@@ -906,11 +942,11 @@ Section SigConv.
 
     Lemma good_convert_raw t :
       forallb (fun c => match kind_of c with KRawDelim | KRawLang | KText | KRawTrimmed => true | _ => sig_empty c end) (map bt kids) = true ->
-      map bt kids = children t -> inner_kind (kind_of t) = true -> sc t = true ->
+      map bt kids = children t -> inner_kind (kind_of t) = true -> sc t = true -> kind_of t = KRaw ->
       good_doc (tsigs kids) (convert_raw swidth t kids).
     Proof.
-      intros Hcl Hshape Hk Hsct. unfold convert_raw. destruct (negb _ && _).
-      { rewrite <- (tsig_kids' t kids Hshape Hk Hsct). apply good_verbatim. }
+      intros Hcl Hshape Hk Hsct Hraw. unfold convert_raw. destruct (negb _ && _).
+      { rewrite <- (tsig_kids' t kids Hshape Hk Hsct). apply good_verbatim. apply raw_ascii; assumption. }
       assert (G : forall l acc, Forall (fun b => sc (bt b) = true) l ->
                 forallb (fun c => match kind_of c with KRawDelim | KRawLang | KText | KRawTrimmed => true | _ => sig_empty c end) (map bt l) = true ->
                 wsig acc = true ->
@@ -926,7 +962,7 @@ Section SigConv.
           rewrite tsigs_cons, app_assoc. unfold bk in *.
           destruct (kind_of (bt b)) eqn:Ekb;
             try (unfold sig_empty in Hcb; destruct (tsig (bt b)) eqn:Et; [|discriminate Hcb]; rewrite app_nil_r; apply IH; assumption).
-          + (* Text *) destruct (good_verbatim (bt b)) as [Hv Wv].
+          + (* Text *) destruct (good_verbatim (bt b)) as [Hv Wv]; [apply (sc_tok_ascii _ Hb); rewrite Ekb; reflexivity|].
             pose proof (IH (append acc (convert_verbatim swidth (bt b))) Hl Hcl' (wsig_append _ _ Hw Wv)) as G1.
             rewrite dsig_append, Hv in G1. exact G1.
           + (* RawLang *) destruct (good_trivia b Hb) as [Hv Wv]; [unfold bk; rewrite Ekb; reflexivity|].
@@ -1154,7 +1190,7 @@ Section SigConv.
     knode_ok (kind_of t) (children t) = true /\ Forall (fun c => sc c = true) (children t).
   Proof.
     destruct t as [k s a|k cs a]; cbn [kind_of children]; intros Hs Hk.
-    - cbn [sc] in Hs. rewrite Hk in Hs. apply andb_prop in Hs. destruct Hs as [_ Hs]. split; [exact Hs|constructor].
+    - cbn [sc] in Hs. rewrite Hk in Hs. apply andb_prop in Hs. destruct Hs as [Hs _]. apply andb_prop in Hs. destruct Hs as [_ Hs]. split; [exact Hs|constructor].
     - apply (sc_kids _ _ _ Hs).
   Qed.
   (* ---------- code blocks ---------- *)
@@ -1194,8 +1230,11 @@ Section SigConv.
       post (convert_code_block swidth cfg t kids c) (good_doc (tsigs kids)).
     Proof.
       intros Hshape Hk Hsct Hw. unfold convert_code_block.
-      match goal with |- post (if ?b then _ else _) _ => destruct b end.
-      { apply post_ret. rewrite <- (tsig_kids' t kids Hshape Hk Hsct). apply good_verbatim. }
+      match goal with |- post (if ?b then _ else _) _ => destruct b eqn:Edis end.
+      { apply post_ret. rewrite <- (tsig_kids' t kids Hshape Hk Hsct). apply good_verbatim.
+        apply (child_disabled_ascii _ Hsct). rewrite <- Hshape.
+        destruct (find (fun b => kind_eqb (bk b) KCode) kids) as [b|] eqn:Ef; [|discriminate Edis].
+        apply find_some in Ef. apply existsb_exists. exists (bt b). split; [apply in_map; exact (proj1 Ef)|exact Edis]. }
       destruct cb_nodes_good as (G & S & M & T). fold cb_nodes. rewrite <- T.
       eapply post_bind.
       - apply list_conv_sig; [apply fresh_keep, fresh_fold, fresh_front, fresh_new|exact S|rewrite M; exact Hw|].
@@ -1216,7 +1255,7 @@ Section SigConv.
       post (convert_math swidth t kids c) (good_doc (tsigs kids)).
     Proof.
       intros Hshape Hk Hsct Hcl. unfold convert_math. apply post_bump_then'. unfold check_disabled.
-      destruct (a_disabled _). { apply post_ret. rewrite <- (tsig_kids' t kids Hshape Hk Hsct). apply good_verbatim. }
+      destruct (a_disabled _) eqn:Edis. { apply post_ret. rewrite <- (tsig_kids' t kids Hshape Hk Hsct). apply good_verbatim. apply disabled_ascii; assumption. }
       eapply post_bind.
       - apply (post_foldM_sig _ (fun st : doc * bool => dsig (fst st)) (fun b => tsig (bt b)) (fun st => wsig (fst st) = true)); [reflexivity|].
         intros [d ah] b Hin Hw. cbn [fst] in *. rewrite Forall_forall in Hgood, Hscope.
@@ -1235,7 +1274,8 @@ Section SigConv.
         { apply post_ret. cbn [fst]. rewrite dsig_append, dsig_text.
           rewrite (sc_fixed _ [35] Hsb) by (unfold bk in E3; apply keq in E3; rewrite E3; reflexivity).
           split; [reflexivity|apply wsig_append; [exact Hw|apply wsig_text]]. }
-        apply post_ret. cbn [fst]. destruct (good_trivia b Hsb Htok) as [Hd Wd]. rewrite dsig_append, Hd.
+        assert (Htok' : inner_kind (bk b) || blank_kind (bk b) = false) by (rewrite Htok; apply (nb_by_expr _ E2 E1)).
+        apply post_ret. cbn [fst]. destruct (good_trivia b Hsb Htok') as [Hd Wd]. rewrite dsig_append, Hd.
         split; [reflexivity|apply wsig_append; assumption].
       - intros [d ah] [E W]. apply post_ret. cbn [fst] in *. split; [exact E|exact W].
     Qed.
@@ -1300,7 +1340,7 @@ Section SigConv.
       { unfold math_operand_req. destruct (is_code_mode (c_mode c0)); pstep Hsg Hsc; apply post_ret; fsimp; split; assumption. }
       destruct (kind_eqb (bk child) KSpace) eqn:E2.
       { apply post_ret. fsimp. apply (sc_quiet _ Hsc). unfold bk in E2. apply keq in E2. rewrite E2. reflexivity. }
-      apply post_ret. fsimp. apply good_trivia; [exact Hsc|]. apply math_child_facts; assumption.
+      apply post_ret. fsimp. apply good_trivia; [exact Hsc|]. rewrite (math_child_facts child) by assumption. apply (nb_by_expr _ E2 E1).
     Qed.
 
     Lemma cons_convert_math_frac c :
@@ -1313,9 +1353,11 @@ Section SigConv.
       split; [exact Hsc|]. intros Hgen c0.
       destruct (is_expr (bt child)) eqn:E1.
       { unfold math_operand_req. destruct (is_code_mode (c_mode c0)); pstep Hsg Hsc; apply post_ret; fsimp; split; assumption. }
+      destruct (kind_eqb (bk child) KSemicolon) eqn:E0.
+      { apply post_ret. fsimp. apply good_trivia; [exact Hsc|]. unfold bk in E0. apply keq in E0. unfold bk. rewrite E0. reflexivity. }
       destruct (kind_eqb (bk child) KSpace) eqn:E2; cbn [negb].
       { apply post_ret. fsimp. apply (sc_quiet _ Hsc). unfold bk in E2. apply keq in E2. rewrite E2. reflexivity. }
-      apply post_ret. fsimp. apply good_trivia; [exact Hsc|]. apply math_child_facts; assumption.
+      apply post_ret. fsimp. apply good_trivia; [exact Hsc|]. rewrite (math_child_facts child) by assumption. apply (nb_by_expr _ E2 E1).
     Qed.
   End Math.
 
@@ -2641,7 +2683,7 @@ Section SigConv.
   Lemma tsig_kids t kids : map bt kids = children t -> inner_kind (kind_of t) = true -> sc t = true -> tsig t = tsigs kids.
   Proof.
     intros Hm Hk Hs. destruct t as [k s a|k cs a]; cbn [children kind_of tsig sc] in *.
-    - rewrite Hk in Hs. destruct s; [|discriminate]. destruct kids; [reflexivity|discriminate].
+    - rewrite Hk in Hs. destruct s; [|discriminate]. destruct kids; [destruct (blank_kind k); reflexivity|discriminate].
     - unfold tsigs. rewrite <- Hm, map_map. reflexivity.
   Qed.
 
@@ -2649,7 +2691,7 @@ Section SigConv.
     knode_ok (kind_of t) (children t) = true /\ Forall (fun c => sc c = true) (children t).
   Proof.
     destruct t as [k s a|k cs a]; cbn [kind_of children]; intros Hs Hk.
-    - cbn [sc] in Hs. rewrite Hk in Hs. apply andb_prop in Hs. destruct Hs as [_ Hs]. split; [exact Hs|constructor].
+    - cbn [sc] in Hs. rewrite Hk in Hs. apply andb_prop in Hs. destruct Hs as [Hs _]. apply andb_prop in Hs. destruct Hs as [_ Hs]. split; [exact Hs|constructor].
     - apply (sc_kids _ _ _ Hs).
   Qed.
 
@@ -2678,7 +2720,7 @@ Section SigConv.
         apply lemma; [exact Hgood|apply kids_scope; exact Hk|try exact Hclause]
       end.
 
-    Lemma leaf_token_good : inner_kind (kind_of t) = false -> good_doc (tsig t) (convert_trivia swidth t).
+    Lemma leaf_token_good : inner_kind (kind_of t) || blank_kind (kind_of t) = false -> good_doc (tsig t) (convert_trivia swidth t).
     Proof. intros Hk. unfold convert_trivia. rewrite (sc_token t Hsc Hk). apply good_text. Qed.
 
     Lemma cons_convert_expr_impl self c :
@@ -2703,7 +2745,7 @@ Section SigConv.
             assert (Hk : inner_kind (kind_of t) = true) by (rewrite E; reflexivity);
             pose proof (node_clause Hk) as Hclause; rewrite E in Hclause; cbn [knode_ok] in Hclause;
             apply post_ret; rewrite (tsig_kids t kids Hshape Hk Hsc);
-            apply good_convert_raw; [apply kids_scope; exact Hk|exact Hclause|exact Hshape|exact Hk|exact Hsc]
+            apply good_convert_raw; [apply kids_scope; exact Hk|exact Hclause|exact Hshape|exact Hk|exact Hsc|exact E]
         | E : kind_of t = KRef |- _ =>
             let Hk := fresh "Hk" in
             assert (Hk : inner_kind (kind_of t) = true) by (rewrite E; reflexivity);
@@ -2788,7 +2830,7 @@ Section SigConv.
         | E : kind_of t = KFuncReturn |- _ => inner_case cons_expr_flow
         | E : kind_of t = KDestructAssignment |- _ => inner_case cons_convert_destruct_assignment
         | _ =>
-            first [ apply post_ret; first [apply good_verbatim | apply leaf_token_good; rewrite E; reflexivity]
+            first [ apply post_ret; first [apply good_verbatim; apply (sc_tok_ascii _ Hsc); rewrite E; reflexivity | apply leaf_token_good; rewrite E; reflexivity]
                   | intros n d n' H; discriminate H
                   | exfalso; destruct t as [k0 s0 a0|k0 cs0 a0]; cbn in E; subst; cbn in Hsc; try (destruct s0); cbn in Hsc; discriminate Hsc ]
         end.
@@ -2805,7 +2847,7 @@ Section SigConv.
     Proof. intros H. apply (post_bind _ _ (fun _ => True)); [apply post_any|intros; exact H]. Qed.
 
     Lemma cons_check_disabled m : post m (good_doc (tsig t)) -> post (check_disabled swidth t m) (good_doc (tsig t)).
-    Proof. intros H. unfold check_disabled. destruct (a_disabled _); [apply post_ret; apply good_verbatim|exact H]. Qed.
+    Proof. intros H. unfold check_disabled. destruct (a_disabled _) eqn:Edis; [apply post_ret; apply good_verbatim; apply disabled_ascii; assumption|exact H]. Qed.
 
     Lemma cons_convert_expr self c :
       sgood self -> bt self = t -> bkids self = kids -> post (convert_expr swidth cfg self c) (good_doc (tsig t)).
